@@ -1022,9 +1022,53 @@ func degreeGuardedLayerStore(f *ssa.Function) bool {
 			if ok1 && ok2 && len(cx.Call.Args) == 1 && len(cy.Call.Args) == 1 && cx.Call.Args[0] == node && cy.Call.Args[0] == node {
 				found = true
 			}
+			if a, b := degreeOperand(bo.X, node), degreeOperand(bo.Y, node); a != "" && b != "" && a != b {
+				found = true
+			}
 		}
 	})
 	return found
+}
+
+// degreeOperand: v is the in-degree ("in") or out-degree ("out") of node: Indeg(node) / Outdeg(node), or len(node.In) / len(node.Out)
+func degreeOperand(v ssa.Value, node ssa.Value) string {
+	call, ok := v.(*ssa.Call)
+	if !ok || len(call.Call.Args) != 1 {
+		return ""
+	}
+	if c := call.Call.StaticCallee(); c != nil {
+		if call.Call.Args[0] != node && !sameSSAExpr(call.Call.Args[0], node, 0) {
+			return ""
+		}
+		switch c.Name() {
+		case "Indeg":
+			return "in"
+		case "Outdeg":
+			return "out"
+		}
+		return ""
+	}
+	if b, isB := call.Call.Value.(*ssa.Builtin); isB && b.Name() == "len" {
+		u, ok := call.Call.Args[0].(*ssa.UnOp)
+		if !ok || u.Op != token.MUL {
+			return ""
+		}
+		fa, ok := u.X.(*ssa.FieldAddr)
+		if !ok {
+			return ""
+		}
+		base, steps := fieldChain(fa)
+		if base != node && !sameSSAExpr(base, node, 0) {
+			return ""
+		}
+		switch locOfSteps(steps) {
+		case igNode + ".In":
+			return "in"
+		case igNode + ".Out":
+			return "out"
+		}
+	}
+	return ""
 }
 
 // ord4BalancerInput: the vertical balancer seeds its feasible window with the absolute layer 0 and the maximum layer, so it is
